@@ -51,10 +51,7 @@ def form_free(d, xk):
     for lk, op, rk, g in guard.iter_cmp(d, hist=True):
         if lk == "users[%s].active" % xk and op == "==" and rk == 0:
             return True
-        m = _EXPIRED.match(lk) if isinstance(lk, str) else None
-        if m and m.group(1) == xk and op == "<" and rk == "time(0)":
-            return True
-    return False
+    return bool(C.has_liveness(d, xk, ("expired",), hist=True))
 
 
 def auth_some(d):
@@ -102,8 +99,7 @@ def run(P, chk, tier):
                 missing.append("active != 0")
             if not guard.d_holds(d, "==", "users[%s].disabled" % p0, 0):
                 missing.append("disabled == 0")
-            if not any(isinstance(lk, str) and _EXPIRED.match(lk) and op in (">", ">=") and rk == "time(0)"
-                       for lk, op, rk, g in guard.iter_cmp(d)):
+            if not C.has_liveness(d, p0, ("live", "not_expired")):
                 missing.append("liveness test last_pkt + K >= time()")
             if need_auth and not guard.d_holds(d, "!=", "users[%s].authenticated" % p0, 0):
                 missing.append("authenticated != 0")
